@@ -90,14 +90,25 @@ def same_outcome(got, want, replayed):
     if not replayed:
         return same_class and str(ge) == str(we)
     msg = str(we)
-    if same_class:
-        return str(ge).startswith(msg) or msg.strip("'") in str(ge)
+    if rebuildable(we):
+        # importable and constructible from one string: the replay must be of the same class
+        return same_class and (str(ge).startswith(msg) or msg.strip("'") in str(ge))
     return isinstance(ge, MementoException) and msg.strip("'") in ge.message
 
 
 def rebuildable(e):
+    import importlib
+
     cls = type(e)
     if "<locals>" in cls.__qualname__:
+        return False
+    try:
+        ref = importlib.import_module(cls.__module__)
+        for part in cls.__qualname__.split("."):
+            ref = getattr(ref, part)
+        if ref is not cls:
+            return False
+    except Exception:
         return False
     try:
         cls("x")
